@@ -37,6 +37,7 @@ def history(case):
                 d = fresh(); d.order = oo; d(y); d.order = order; scen['order changed and restored'] = res(d, x)
                 d = fresh(); d.method = om; d(y); d.method = method; scen['method changed and restored'] = res(d, x)
                 d = fresh(); d.n = on; d(y); d.n = n; scen['n changed and restored'] = res(d, x)
+                d = fresh(); d.n = 0; d(y); d.n = n; scen['n set to 0 (f itself) and back'] = res(d, x)
                 # with step=None the constructor picks the generator class from the method it is given (Max for real-step, Min for
                 # complex-step methods); the property speaks of changing and restoring a REAL-STEP method, so an object built for a
                 # real-step method and switched to a complex-step one is compared only when the generator is given explicitly
